@@ -45,6 +45,12 @@ def resolveConstant (st : Static) (defs : Defs) (ctx : RCtx) (ref : Nat) (e : Ex
         if !valuesStable v prev then .ok (defs', false, if ctx.last then ["constant value did not converge"] else [])
         else .ok (defs', true, [])
 
+/-- no candidate is still `Unresolved` (it might yet become the smallest encoding) -/
+def allDefinite (st : Static) (defs : Defs) (ctx : RCtx) (cands : List IMatch) : Bool :=
+  match resolveMatches st defs (evalFuel - 1) ctx cands {} [] with
+  | .ok (rs, _) => rs.all fun r => match r with | .unresolved => false | _ => true
+  | .error _ => false
+
 /-- `resolve_instruction` -/
 def resolveInstruction (st : Static) (defs : Defs) (ctx : RCtx) (ref : Nat) : ItemRes :=
   let ins := defs.instrs.getD ref default
@@ -60,7 +66,7 @@ def resolveInstruction (st : Static) (defs : Defs) (ctx : RCtx) (ref : Nat) : It
         | none => false
       match chosen with
       | some e =>
-        if st.opts.optStatic && ctx.first && ins.known && single then
+        if st.opts.optStatic && ctx.first && ins.known && single && allDefinite st defs ctx (ins.cands.map (·.m)) then
           .ok ({ defs with instrs := defs.instrs.set ref { ins with encoding := e, resolved := true } }, true, reported)
         else
           let defs' := { defs with instrs := defs.instrs.set ref { ins with encoding := e } }
